@@ -2,7 +2,8 @@ PROPERTIES = ['C03', 'C02']
 BOUNDS = {
     'quick': 'static_set<Tracked,CAP> and flat_set<Tracked, static_vector<Tracked,CAP>>: one operation from every size; static_set at capacity 2, flat_set at capacity 3 (copy+move keys, every size NA, second set / source block size NB in {0,1,2} / {0,1,3}); move-only and copy-only keys at capacity 2 from size 1; '
              ' key values symbolic (pre-state keys pairwise distinct), erase positions symbolic (case-split)',
-    'thorough': 'static_set capacities 1..3 (copy+move) and 2 (move-only, copy-only), flat_set capacities 1..4 (copy+move) and 2..3 (move-only, copy-only), every (NA, NB)',
+    'thorough': 'static_set: copy+move keys at capacity 2 (every NB) and 3 (NB = 0), move-only and copy-only at capacity 2 (every NB); flat_set: copy+move keys at capacity 3 (every NB) and 4 (NB = 0), '
+                'move-only and copy-only at capacity 3 (NB in {0,1}); every size NA',
 }
 ASSUMPTIONS = [
     'C03: erase positions are valid iterators (pos < size(), first <= last <= size()); inserting a NEW key into a FULL flat_set over static_vector is outside its precondition '
@@ -20,7 +21,7 @@ RANGE = ['insert_range']
 FS_ANY = ['insert_hint_r', 'erase_if', 'extract', 'ctor_container', 'ctor_sorted']
 FS_NONEMPTY = ['erase_cit']
 FS_PAIR = ['replace']
-KF_WHOLE = {'copy_assign_self': ('C03_static_vector_self_copy_assign', lambda na: na > 0)}
+KF_WHOLE = {}
 
 
 def uw(blk, cap):
@@ -40,8 +41,8 @@ def queries(tier, prop='C03'):
                 ('fs_', 0, 3, (0, 1, 3)), ('fs_', 1, 2, (0, 1)), ('fs_', 2, 2, (0, 1))]
         only_na = {1: (1,), 2: (1,)}   # quick: move-only and copy-only keys from the middle size only
     else:
-        grid = [('ss_', 0, c, tuple(range(c + 1))) for c in (1, 2, 3)] + [('ss_', f, 2, (0, 1, 2)) for f in (1, 2)]
-        grid += [('fs_', 0, c, tuple(range(c + 1))) for c in (1, 2, 3, 4)] + [('fs_', f, c, tuple(range(c + 1))) for f in (1, 2) for c in (2, 3)]
+        grid = [('ss_', 0, 2, (0, 1, 2)), ('ss_', 0, 3, (0,)), ('ss_', 1, 2, (0, 1, 2)), ('ss_', 2, 2, (0, 1, 2))]
+        grid += [('fs_', 0, 3, (0, 1, 2, 3)), ('fs_', 0, 4, (0,)), ('fs_', 1, 3, (0, 1)), ('fs_', 2, 3, (0, 1))]
     if ub:
         grid = [('ss_', 0, 2, (0, 1)), ('fs_', 0, 2, (0, 1))]
         only_na = {0: (1,)} if tier == 'quick' else {}
